@@ -1,5 +1,6 @@
 import FV.Props.Catalog
 import FV.Ops
+import FV.Props.C12
 /-! # C14 — in-place mutation stays inside the value (first instalment)
 
 Every write in the model is a `writeAt`, which *faults* when it does not lie inside the byte list it is given — so a model
@@ -37,4 +38,46 @@ theorem C14_item_edit_frame (it : Ty) (l : LenTy) (i : Nat) (op : Op) (s : Slice
       rw [List.drop_append_of_le_length (by omega), List.drop_of_length_le (by omega), List.nil_append]
   | err e => rw [hi] at h; simp at h
   | fault f => rw [hi] at h; simp at h
+
+/-- **C14 (emplace).** For every well-formed type, well-typed initialiser and every buffer, `new_in_place` is a function of the
+buffer handed to it that never faults — every write of the model faults as soon as it leaves the byte list it is given — and
+returns a buffer of the same length: nothing outside the buffer can have been touched. -/
+theorem C14_emplace_inside (t : Ty) (h : t.WF) (i : Init) (hw : InitWT t i) (s : Slice) :
+    ∃ o, emplace t i s = .ok o ∧ o.bytes.length = s.len := by
+  obtain ⟨o, ho, hol, _⟩ := emplaceSpec_of_wt t h i hw s
+  exact ⟨o, ho, hol⟩
+
+/-- **C14 (assign).** `assign_in_place` on a value mapped from `s` (aligned, at least `MIN_SIZE`) changes nothing after the
+value's own bytes: the view has length `v ≤ s.len`, the result has the length of `s`, and from `v` on it is `s`. -/
+theorem C14_assign_frame (t : Ty) (h : t.WF) (i : Init) (hw : InitWT t i) (s : Slice)
+    (hal : s.addr % t.dict.align = 0) (hlen : t.dict.minSize ≤ s.len) :
+    ∃ o v, assign t i s = .ok o ∧ t.dict.viewLen s.len = .ok v ∧ v ≤ s.len ∧ o.bytes.length = s.len ∧
+      o.bytes.drop v = s.bytes.drop v := by
+  obtain ⟨v, hv, hvle, _, hvmin⟩ := (Ty.viewLaw t h).fits s.len hlen
+  have hsl : s.len = s.bytes.length := rfl
+  obtain ⟨o, ho, hok⟩ := emplaceU_ok i t h hw (s.take v) (by simpa using hal) (by simp only [Slice.len_take]; omega)
+  have hol : o.bytes.length = v := by have := hok.len; simp only [Slice.len_take] at this; omega
+  refine ⟨⟨o.bytes ++ s.bytes.drop v, o.res⟩, v, by simp only [assign, hv, Res.bind_ok, ho], hv, hvle, ?_, ?_⟩
+  · simp only [List.length_append, List.length_drop, hol]; omega
+  · rw [List.drop_left' hol]
+
+/-- **C14 (FlexVec truncate / pop / clear).** These operations write at most one offset slot: there is a position `q` such that
+every byte outside `[q, q + L::SIZE)` is as before — no item payload is touched. -/
+theorem C14_truncate_frame (it : Ty) (l : LenTy) (n : Nat) (data : Slice) (b' : Bytes)
+    (h : flexTruncate it l n data = .ok b') :
+    b'.length = data.len ∧ ∃ q, ∀ a k, (a + k ≤ q ∨ q + l.size ≤ a) → (b'.drop a).take k = (data.bytes.drop a).take k := by
+  unfold flexTruncate at h
+  cases hs : flexSlots it l (data.len + 1) 0 data with
+  | ok slots =>
+    simp only [hs, Res.bind_ok] at h
+    split at h
+    · cases h; exact ⟨rfl, 0, fun _ _ _ => rfl⟩
+    · split at h
+      · exact ⟨writeAt_length h, 0, fun a k hk => writeAt_frame h a k (by rw [encLenTy_length]; exact hk)⟩
+      · split at h
+        · rename_i q _
+          exact ⟨writeAt_length h, q, fun a k hk => writeAt_frame h a k (by rw [encLenTy_length]; exact hk)⟩
+        · cases h
+  | err e => simp [hs] at h
+  | fault f => simp [hs] at h
 end FV.Props
